@@ -105,6 +105,18 @@ func robustInputs(r *rand.Rand, n int, deep int) [][]byte {
 			}
 		}
 	}
+	// a dense run that crosses the index-buffer flush threshold at every phase of a 64-byte block and ends
+	// 1..64+ bytes later (the buffer must have room for the block in flight AND the padded tail)
+	for pre := 0; pre < 64; pre++ {
+		for _, unit := range []string{"0,", "[", "[],"} {
+			for extra := 0; extra <= 320; extra += 9 {
+				l := 1400 + pre%5 + extra
+				b := append([]byte{'['}, bytes.Repeat([]byte{' '}, pre)...)
+				b = append(b, bytes.Repeat([]byte(unit), l/len(unit)+1)[:l]...)
+				in = append(in, b)
+			}
+		}
+	}
 	// adversarial nesting depth, balanced and not
 	for _, d := range []int{100, 127, 128, 129, 1000, 5000, deep} {
 		open := bytes.Repeat([]byte("["), d)
